@@ -171,3 +171,34 @@ func HarnessCloseHTTP() {
 	verif.Assert(ret == 1 && cerr == nil && v == tok, "call-in-progress-completes-after-close")
 	verif.Reach("close-http-done")
 }
+
+// HarnessCancelAndClose: calls with cancellable contexts are cancelled at one
+// instant and the client is closed at another; afterwards every call has returned.
+func HarnessCancelAndClose() {
+	l := verif.ListenWS()
+	go peer(l, true, 0) // the peer never answers
+	var c C
+	closer, err := jsonrpc.NewMergeClient(context.Background(), l.URL(), "NS", []interface{}{&c}, nil)
+	verif.Assert(err == nil, "client-created")
+	ctx, cancel := context.WithCancel(context.Background())
+	n := 2
+	ret := 0
+	for i := 0; i < n; i++ {
+		go func() { c.Echo(ctx, 1); ret++ }()
+	}
+	go func() {
+		verif.AtStep("cancel_at", verif.Bound("csteps", 10))
+		cancel()
+	}()
+	closerRet := 0
+	go func() {
+		verif.AtStep("close_at", verif.Bound("steps", 20))
+		closer()
+		closerRet++
+	}()
+	verif.Quiesce()
+	verif.Assert(closerRet == 1, "closer-returns")
+	verif.Assert(ret == n, "cancelled-calls-return-after-close")
+	cancel()
+	verif.Reach("cancel-and-close-done")
+}
